@@ -126,11 +126,13 @@ ClosureClauses ==
   /\ Drift("amplitude-definitions-have-numeric-projections", Cl.symbolic_defs = 0, Cl.symbolic_defs)
   /\ Stat("closure-symbols", Cardinality(free))
 
+\* (the clauses are compared with TRUE so that TLC evaluates them as expressions: as conjuncts of the action it would unfold the
+\* quantifiers over pairs of chains into nested continuations - a stack overflow from about 140 transitions on)
 Step == /\ l <= Len(Log)
-        /\ (Rec.do_formula = 1 => ChainClauses /\ AmpClauses)
-        /\ (Rec.do_parity = 1 => ParityClauses)
-        /\ ((Rec.do_parity = 1 /\ Rec.default_naming = 1) => SharingClauses)
-        /\ (Rec.do_closure = 1 => ClosureClauses)
+        /\ (Rec.do_formula = 1 => ChainClauses /\ AmpClauses) = TRUE
+        /\ (Rec.do_parity = 1 => ParityClauses) = TRUE
+        /\ ((Rec.do_parity = 1 /\ Rec.default_naming = 1) => SharingClauses) = TRUE
+        /\ (Rec.do_closure = 1 => ClosureClauses) = TRUE
         /\ l' = l + 1
 TraceInit == l = 1
 TraceSpec == TraceInit /\ [][Step]_l
